@@ -4,11 +4,11 @@ go 1.26.8
 
 require github.com/pion/transport/v3 v3.0.0
 
-require github.com/pion/logging v0.2.3
-
 require (
-	golang.org/x/net v0.34.0 // indirect
-	golang.org/x/sys v0.29.0 // indirect
+	github.com/pion/logging v0.2.3
+	golang.org/x/net v0.34.0
 )
+
+require golang.org/x/sys v0.29.0 // indirect
 
 replace github.com/pion/transport/v3 => /repo
